@@ -166,4 +166,41 @@ def toLinspace {β : Type} [LT β] [DecidableLT β] (x : List β) : List Nat × 
   let keys := Py.unique x
   (x.map fun v => Py.searchLeft keys v, keys)
 
+/-- the accessor's validation of the calibration window (`PixelAlgorithms.spi`, no groups):
+    `error` = ValueError.  `time` is the sorted axis, `b`/`e` the requested bounds
+    (`none` = default: first / last step). -/
+def spiWindow (time : List Int) (b e : Option Int) : Except AggErr (Nat × Nat) :=
+  match time.head?, time.getLast? with
+  | some t0, some tl =>
+    let b := b.getD t0
+    let e := e.getD tl
+    if tl < b then .error .valueError
+    else if e < t0 then .error .valueError
+    else
+      let (i, j) := calIndices time b e
+      if j ≤ i then .error .valueError
+      else if j - i ≤ 1 then .error .valueError
+      else .ok (i, j)
+  | _, _ => .error .valueError
+
+/-- with groups: every group's window must hold at least two steps -/
+def spiWindowGrp (time : List Int) (groups : List Nat) (numGroups : Nat) (b e : Option Int) :
+    Except AggErr (List (Nat × Nat)) :=
+  match time.head?, time.getLast? with
+  | some t0, some tl =>
+    let b := b.getD t0
+    let e := e.getD tl
+    if tl < b then .error .valueError
+    else if e < t0 then .error .valueError
+    else
+      let ws := calIndicesGrp time groups numGroups b e
+      if ws.any (fun (i, j) => j ≤ i) then .error .valueError
+      else if ws.any (fun (i, j) => j - i ≤ 1) then .error .valueError
+      else .ok ws
+  | _, _ => .error .valueError
+
+/-- recorded attributes: first step ≥ begin and last step ≤ end -/
+def spiAttrs (time : List Int) (b e : Int) : Option Int × Option Int :=
+  ((time.filter fun t => b ≤ t).head?, (time.filter fun t => t ≤ e).getLast?)
+
 end Hdc
